@@ -160,6 +160,62 @@ static void stat_line(const char *what, double ratio, double extra) {
 }
 static const char *bname(int base) { return base ? "labels=1-based" : "labels=0-based"; }
 
+
+/* ------------------------------------------------------------------ reused outputs
+ * LDAPrediction must give the same result whatever its OUTPUT objects held before the call: empty (initMatrix), the result of
+ * an earlier call of the same shape, or matrices of another shape.  probability, prediction and mnpdf are (re)sized by the
+ * routine and every cell is assigned; the routine is single-threaded and never reads them before: compared bit for bit
+ * (NaN == NaN, -0 == +0) with the result obtained with fresh outputs.  pfeatures is built with MatrixAppendCol (one column per
+ * discriminant feature appended to whatever the caller passes, rows = the larger of the two counts): a used matrix is NOT
+ * expected to be reset; only its trailing block (last nfeat columns, first nt rows) is compared, and both "appended" and
+ * "reset and refilled" are accepted as its shape.
+ * The calls run in the exploring process, also for labels numbered from 1 (they are made only after the sandboxed call on
+ * the same model and objects returned normally). */
+static int m_same(const matrix *a, const matrix *b) {
+  if (a->row != b->row || a->col != b->col) return 0;
+  for (size_t i = 0; i < a->row; i++) for (size_t j = 0; j < a->col; j++) { double x = a->data[i][j], y = b->data[i][j]; if (!(x == y || (x != x && y != y))) return 0; }
+  return 1;
+}
+static matrix *m_dup(const matrix *a) { matrix *m; NewMatrix(&m, a->row, a->col); for (size_t i = 0; i < a->row; i++) memcpy(m->data[i], a->data[i], sizeof(double) * a->col); return m; }
+static matrix *m_junk(int r, int c) { matrix *m; NewMatrix(&m, (size_t)r, (size_t)c); for (int i = 0; i < r; i++) for (int j = 0; j < c; j++) m->data[i][j] = 1e3 + 7.0 * i - 3.0 * j + 0.25; return m; }
+static int pf_tail_same(const matrix *pf, size_t cols_before, const matrix *want) {
+  if (!(pf->col == want->col || pf->col == cols_before + want->col) || pf->row < want->row) return 0;
+  for (size_t i = 0; i < want->row; i++) for (size_t j = 0; j < want->col; j++) { double x = pf->data[i][pf->col - want->col + j], y = want->data[i][j]; if (!(x == y || (x != x && y != y))) return 0; }
+  return 1;
+}
+typedef struct { matrix *pf, *pb, *mn, *pd; } out4;
+static void out4_free(out4 *q) { DelMatrix(&q->pf); DelMatrix(&q->pb); DelMatrix(&q->mn); DelMatrix(&q->pd); }
+static void reuse_call(const dcfg *c, const char *cls, const char *how, LDAMODEL *m, matrix *xt, out4 *q, const out4 *w) {
+  size_t before = q->pf->col; char key[160];
+  LDAPrediction(xt, m, q->pf, q->pb, q->mn, q->pd); vx_transition(1);
+  int okb = m_same(q->pb, w->pb), okd = m_same(q->pd, w->pd), okm = m_same(q->mn, w->mn), okf = pf_tail_same(q->pf, before, w->pf);
+  snprintf(key, sizeof key, "reuse|LDAPrediction|%s", cls);
+  vx_check(okb && okd && okm && okf, key, "K=%d p=%d, %zu objects, labels from %d: LDAPrediction into outputs that %s: %s differs from the result with fresh outputs (probability %zux%zu, max difference %g; prediction %zux%zu; mnpdf %zux%zu, fresh %zux%zu; pfeatures %zux%zu, %zu columns before the call, fresh %zux%zu)",
+           c->K, c->p, xt->row, c->base, how, !okb ? "probability" : !okd ? "prediction" : !okm ? "mnpdf" : "the trailing block of pfeatures", q->pb->row, q->pb->col, okb ? 0.0 : hm_maxdiff(q->pb, w->pb), q->pd->row, q->pd->col,
+           q->mn->row, q->mn->col, w->mn->row, w->mn->col, q->pf->row, q->pf->col, before, w->pf->row, w->pf->col);
+}
+/* xt: the objects predicted (nt rows); xo: another matrix of the same features with another number of rows.
+ * Every visit: the same four objects a second time.  LDAPrediction is the most expensive call of an execution under the
+ * sanitizers (~1 ms for 64 objects x 5 classes), so ONE other previous shape is tried per visit, in rotation (rot): objects filled by
+ * the prediction of xo (rows differ); hand-filled matrices with one more column each (no call with this model produces them);
+ * hand-filled matrices with other numbers of rows and columns. */
+static void judge_reuse(const dcfg *c, LDAMODEL *m, matrix *xt, matrix *xo, int rot) {
+  out4 f, w; int nt = (int)xt->row;
+  initMatrix(&f.pf); initMatrix(&f.pb); initMatrix(&f.mn); initMatrix(&f.pd);
+  LDAPrediction(xt, m, f.pf, f.pb, f.mn, f.pd);
+  w.pf = m_dup(f.pf); w.pb = m_dup(f.pb); w.mn = m_dup(f.mn); w.pd = m_dup(f.pd);
+  int nf = (int)w.pf->col;
+  reuse_call(c, "same-shape", "hold an earlier result of the same shape", m, xt, &f, &w);
+  if (rot % 3 == 0) { out4 q; initMatrix(&q.pf); initMatrix(&q.pb); initMatrix(&q.mn); initMatrix(&q.pd);
+    LDAPrediction(xo, m, q.pf, q.pb, q.mn, q.pd);
+    reuse_call(c, "one-dim-differs", "held the result for another number of objects", m, xt, &q, &w); out4_free(&q); }
+  else if (rot % 3 == 1) { out4 q = {m_junk(nt, nf + 1), m_junk(nt, c->K + 1), m_junk(nt, nf + 1), m_junk(nt, 2)};
+    reuse_call(c, "one-dim-differs", "held matrices with the same number of objects and another number of columns", m, xt, &q, &w); out4_free(&q); }
+  else { out4 q = {m_junk(nt + 2, nf + 3), m_junk(nt + 2, c->K + 3), m_junk(nt + 2, nf + 3), m_junk(nt + 2, 4)};
+    reuse_call(c, "both-dims-differ", "held matrices with other numbers of rows and columns", m, xt, &q, &w); out4_free(&q); }
+  out4_free(&f); out4_free(&w);
+}
+
 /* fit + predict; returns 0 if the outputs cannot be used */
 static int fit_predict(const dcfg *c, matrix *X, matrix *Y, matrix *xt, LDAMODEL **mo, pr_t *o) {
   char key[160];
@@ -315,9 +371,14 @@ static void mode_model(void) {
   int have = fit_predict(&c, X, Y, xt, &m, &o);
   judge_model(&c, X, cls, &r, m, xt, &o, have);
   uint64_t h = hv_hash(m->pprob, 1); h = hm_hash(m->mu, h);
+  int rot = c.K + c.p + c.sz + c.base + c.layout + c.sep + c.fam + map;
   if (have) {
+    /* reused outputs, every execution of this mode: affine map 0 -> the model of the data as generated (the same model for all six
+     * maps), maps 1..5 -> the model of the re-coded data */
+    if (map == 0) judge_reuse(&c, m, xt, X, rot);
     judge_separation(&c, X, cls, &r, &o);
     if (fit_predict(&c, X2, Y, xt2, &m2, &o2)) {
+      if (map != 0) judge_reuse(&c, m2, xt2, X2, rot);
       double allow = score_allowance(&c, &r, xt) + score_allowance(&c, &r2, xt2);
       judge_same(&c, &o, &o2, allow, "affine", "LDA+LDAPrediction");
       h = hm_hash(o2.pred, h);
@@ -335,8 +396,8 @@ static void mode_roworder(void) {
   c.base = vx_choose("labelbase", 2); c.layout = 0; c.sep = vx_choose("separation", 2); c.fam = 0;
   matrix *X, *Y; int *cls; gen(&c, &X, &Y, &cls);
   int n = c.n, perm[NOBJ];
-  int full = (n == 8 && c.base == 0 && c.sep == 0 && (vx_thorough() || c.p == 2));
-  if (full) vg_perm(8, 1 + vx_choose("perm", 40319), perm);
+  int full = (n == 8 && c.base == 0 && c.sep == 0 && (vx_thorough() || c.p == 2)), permid = 0;
+  if (full) vg_perm(8, 1 + (permid = vx_choose("perm", 40319)), perm);
   else {
     int t = vx_choose("perm", 8);
     if (t == 0) for (int i = 0; i < n; i++) perm[i] = (i + 1) % n;
@@ -352,6 +413,9 @@ static void mode_roworder(void) {
   LDAMODEL *m, *m2 = NULL; pr_t o, o2 = {NULL, NULL, 0};
   int h1 = fit_predict(&c, X, Y, xt, &m, &o), h2 = h1 ? fit_predict(&c, X2, Y2, xt, &m2, &o2) : 0;
   uint64_t h = hm_hash(m->mu, 2);
+  /* reused outputs: the model of the re-ordered training set; of the 40319 orders of the 2x4 set every 64th (the shapes are
+   * the same for all of them), every execution otherwise */
+  if (h1 && h2 && permid % 64 == 0) judge_reuse(&c, m2, xt, X2, c.K + c.p + c.sz + c.base + c.sep + permid / 64 + perm[0]);
   if (h1 && h2) {
     judge_same(&c, &o, &o2, score_allowance(&c, &r, xt), "roworder", "LDA+LDAPrediction");
     /* the stored model itself: priors identical, means to rounding */
@@ -394,7 +458,7 @@ static void body(void) {
 int main(int argc, char **argv) {
   vg_seed(getenv("VERIF_SEED") ? atol(getenv("VERIF_SEED")) : 0);
   vx_describe("alphabet", "classes 2..5 x features 2..4[..6] x sizes {(4,4..),(6,4..),(12,4..),(40,5..)} x label base {0,1} x centres {lattice, collinear 0/1/10/11/30} x separation {0.5, 8} x 6 affine maps (kappa 1,10,100, with/without translation); row orders: all 8! for the 2x4 set, 8 fixed permutations otherwise; ROC: classes x sizes x 3 arrangements");
-  vx_describe("oracle", "priors=frequencies; means=class averages (64*eps*(n_k+2)*max|x|); label in training labels and arg-max of stored scores; stored score differences = linear discriminant of the stored model; textbook long-double LDA margin>=20 => zero errors; score differences invariant under affine maps / row order (1e3*eps*(p+n)*kappa(S)*sum|terms|); AUC=1 for perfect predictions");
+  vx_describe("oracle", "priors=frequencies; means=class averages (64*eps*(n_k+2)*max|x|); label in training labels and arg-max of stored scores; stored score differences = linear discriminant of the stored model; textbook long-double LDA margin>=20 => zero errors; score differences invariant under affine maps / row order (1e3*eps*(p+n)*kappa(S)*sum|terms|); AUC=1 for perfect predictions; LDAPrediction into reused outputs (same shape, one or both dimensions different) = result with fresh outputs, bit for bit (pfeatures: trailing block, append convention)");
   vx_set_shard_depth(4);
   vx_expect_outcomes(100);
   return vx_main(argc, argv, "C08", body);
